@@ -231,6 +231,12 @@ func (t *tr) appendList(ce *ast.CallExpr, l *val) *val {
 	}
 	old := t.listExpr(l)
 	e := t.movable(t.eval(ce.Args[1]), exprText(ce))
+	if l.c != nil {
+		// the result holds the SAME element pointers: the old slice must not be used under another name
+		oc, og := l.c, l.c.guard // (not a change of the cell's VALUE: no entry for join / loop items)
+		t.log = append(t.log, logEnt{undo: func() { oc.guard = og }})
+		oc.guard = "its pointers were handed to the result of " + exprText(ce)
+	}
 	c := t.newCell(par(old)+" ++ ["+e+"]", "", oLocal)
 	c.ty = "list Z"
 	if old == "[]" {
